@@ -36,6 +36,13 @@ def families(rng, n):
         H = np.kron(H, np.array([[1, 1], [1, -1]]) / np.sqrt(2))
     yield "hadamard", H.astype(complex)
     yield "minus_identity", -np.eye(N, dtype=complex)
+    if N >= 4:
+        # degenerate demultiplexing spectrum in a generic eigenbasis (eigenvalue -1 twice: branch cut of np.angle)
+        h = N // 2
+        for theta in (np.pi, 0.7):
+            qq, _ = np.linalg.qr(rng.normal(size=(h, h)) + 1j * rng.normal(size=(h, h)))
+            dq = qq @ np.diag(np.exp(1j * np.array([theta, theta] + list(np.linspace(-2.5, 2.5, h - 2))))) @ qq.conj().T
+            yield f"block_degenerate_{theta:.2f}", scipy.linalg.block_diag(b, dq @ b).astype(complex)
 
 
 def contract_monitors(ctx):
